@@ -131,6 +131,9 @@ def r2(ctx):
     size = Attr(Idx(clusters, (k,)), "size")
     ok = g.key in (tm.compare("<", size, 2).key, tm.compare("<=", size, 1).key)
     ctx.check(ok, fi, "a cluster is a recipient iff its size is < 2", line=lp.lineno, role="recipient:test", expected=f"{size} < 2", found=str(g))
+    ub = tm.upper_bound(g, size)
+    ctx.check(ub is not None and ub >= 1, fi, "every cluster with fewer than 2 points is a recipient", line=lp.lineno, role="recipient:covers",
+              expected=f"{size} <= b with b >= 1", found=str(g))
     ctx.check(arg == k and it == Range(0, tm.length(clusters)), fi, "the recipient set holds cluster ids, every cluster is examined",
               line=lp.lineno, role="recipient:ids", expected=f"{k} over all clusters", found=f"{arg} over {it}")
     ctx.ok(fi, "one refill loop over the recipient collection (each recipient refilled once)", role="recipient:loop", line=lp.lineno)
